@@ -15,10 +15,11 @@ from .runner import NOTDONE
 
 
 class Violation:
-    __slots__ = ('prop', 'clause', 'site', 'msg')
+    __slots__ = ('prop', 'clause', 'site', 'msg', 'nested')
 
     def __init__(self, prop, clause, site, msg):
         self.prop, self.clause, self.site, self.msg = prop, clause, site, msg
+        self.nested = False     # the job at fault is a nested scheduler (c10)
 
     @property
     def sig(self):
@@ -92,6 +93,15 @@ def c02(hist):
             continue
         for mh in sr.finite:
             fin = mh.ended()
+            if hist.rerun is not None and mh.spec['cls'] == 'coro' \
+                    and not mh.enters:
+                # a coroutine object cannot be awaited a second time: Python
+                # makes the job raise RuntimeError before its body; that is
+                # how this job ended then ("raised while non-critical")
+                tup = hist.run.post.get(mh.nid)
+                if tup and tup[0] != 'error' and \
+                        isinstance(tup[4], RuntimeError):
+                    continue
             if len(mh.enters) != 1 or fin is None or fin[0] > sr.over[0]:
                 out.append(Violation(
                     'C02', 'success-with-unfinished-job', _site(sr),
@@ -170,12 +180,18 @@ def c07(hist, stats=None):
                     'C07', 'window-exceeded', _site(sr),
                     "{} window={} but {} direct jobs active when {} entered "
                     "(seq {})".format(sid, sr.window, active, mid, seq)))
+                out[-1].nested = hist.nodes[mid].is_sched
         if stats is not None:
             if sr.window:
                 if peak >= sr.window:
                     stats['window_full'] = stats.get('window_full', 0) + 1
             elif peak > 3:
                 stats['nolimit_gt3'] = stats.get('nolimit_gt3', 0) + 1
+    # None or 0 means no limit: nothing eligible is kept waiting
+    for v in c12(hist):
+        if v.site == 'unwindowed':
+            out.append(Violation('C07', 'no-limit-but-' + v.clause, v.site,
+                                 v.msg))
     return out
 
 
@@ -211,12 +227,14 @@ def c12(hist, stats=None):
                             'C12', 'late-start', 'unwindowed',
                             "{} in {} eligible at t={} but entered at t={}"
                             .format(mh.nid, sid, elig[1], mh.enter[1])))
+                        out[-1].nested = mh.is_sched
                 if mh.enter is None and elig is not None \
                         and elig[1] < t_close:
                     out.append(Violation(
                         'C12', 'never-started', 'unwindowed',
                         "{} in {} eligible at t={} (run closes at {}) but "
                         "never entered".format(mh.nid, sid, elig[1], t_close)))
+                    out[-1].nested = mh.is_sched
             continue
         # windowed: work conservation at quiescent points before the close
         elig = {mh.nid: _eligible_seq(hist, sr, mh.nid) for mh in sr.mh}
@@ -253,6 +271,14 @@ def c14(hist, stats=None):
     out = []
     objs = run.ctx.objs
     last = {}
+    # result() is what the body returned; a returned object that happens to
+    # be awaitable is handed over, not awaited
+    for seq, t, kind, nid, payload in hist.events:
+        if kind == 'mark' and payload == 'result-awaited':
+            out.append(Violation(
+                'C14', 'returned-object-awaited', hist.nodes[nid].spec['cls'],
+                "the object returned by {} was awaited by somebody (seq {} "
+                "t={})".format(nid, seq, t)))
 
     def check(label, pseq, snap, final):
         for nid, tup in snap.items():
@@ -1157,6 +1183,16 @@ def c10(hist, stats=None):
     out = []
     run = hist.run
     objs = run.ctx.objs
+    # seen from its parent a nested scheduler is a single job: it waits for
+    # its requirements, is waited for, and takes one slot of the window
+    for v in c01(hist):
+        if 'sched-requirement' in v.site or 'nestedjob' in v.site:
+            out.append(Violation('C10', 'as-one-job:' + v.clause, v.site,
+                                 v.msg))
+    for v in c07(hist) + c12(hist):
+        if v.nested:
+            out.append(Violation('C10', 'as-one-job:' + v.clause, v.site,
+                                 v.msg))
     for sid in hist.sched_ids():
         parent = hist.parents[sid]
         if parent is None:
